@@ -361,6 +361,14 @@ package risc
 //@   ensures result == (ins == Sb || ins == Sh || ins == Sw)
 //@   assigns nothing
 
+// IncSequenceID / SequenceID: the jump counter. Trusted (one-line functions;
+// int32 overflow of the counter after 2^31 taken jumps is not modelled).
+//@ func (*Context).IncSequenceID
+//@   mode int
+//@   trusted
+//@   ensures ctx.sequenceID == old(ctx.sequenceID) + 1
+//@   assigns ctx.sequenceID
+
 // ---------------------------------------------------------------- assembler front end (C11)
 // Strings are abstract values with a length, a byte-at and a substring
 // observer; the trusted contracts below state the only facts about the Go
